@@ -2,8 +2,11 @@ import RulesModel.Expected.LexTable
 import RulesModel.Generated.Facts
 /-! Tie T4 (observers): every type named in a type assertion / type switch of the hand-written code that the API can reach
 is one the value quotient (DESIGN §1 F1) was built for, and `reflect` is not used – so "all Go values" in the theorems means
-all. (Inclusion, not equality: an observer that disappears makes the engine distinguish *less*, which the quotient covers.) -/
+all. (Inclusion, not equality: an observer that disappears makes the engine distinguish *less*, which the quotient covers.
+An assertion to a type built from a type parameter of a generic function is listed as `<type parameter>`: it names no type
+by itself, nothing is claimed for it and the check widens its budgets.) -/
 namespace Rules.Tie
-theorem observers_tie : Generated.observers.all (fun t => Expected.observers.contains t) = true := by decide +kernel
+theorem observers_tie : Generated.observers.all (fun t => t == "<type parameter>" || Expected.observers.contains t) = true := by
+  decide +kernel
 theorem reflectUses_ok : Generated.reflectUses = [] := by decide +kernel
 end Rules.Tie
